@@ -692,14 +692,15 @@ Theorem ptlc_claim_exact f rcv c refund sig fl vals :
     (bad_arity rcv sig (init_cache cfg vals)).
 Proof.
   intros L1 L2 L3 Lsig.
-  unfold run_auth_scripts. rewrite ptlc_claim_witness_bytes.
+  unfold run_auth_scripts. rewrite ptlc_claim_witness_bytes, ptlc_lock_bytes.
   rewrite (flag_witness_runs (S (S f)) sig x01 xff vals eq_refl Lsig).
   rewrite auth_rest_one.
-  destruct (lock_start (push1_bytes sig ++ [x01]) (ptlc_lock rcv c refund fl) vals [[xff]; sig])
+  destruct (lock_start (push1_bytes sig ++ [x01])
+              ([x2c] ++ ifelse_ops (claim_arm rcv) (refund_arm_bytes c refund) ++ [x23; fl]) vals [[xff]; sig])
     as (Hd & Hlt & Hs & Hret & Hmsg & _).
-  rewrite ptlc_lock_bytes in Hd.
-  pose proof (lock_tail _ _ f _ _ 0 [] [xff] sig rcv c refund fl 0%Z 0%Z (init_cache cfg vals)
-                Hd eq_refl Hlt Hs Hret Hmsg L1 L2 L3 Lsig) as H.
+  set (tid := fst (next_start _ 0 _)) in *. set (st2 := snd (next_start _ 0 _)) in *.
+  pose proof (lock_tail (S (S (S (S (S f))))) tid f tid st2 0 [] [xff] sig rcv c refund fl 0%Z 0%Z
+                (init_cache cfg vals) Hd eq_refl Hlt Hs Hret Hmsg L1 L2 L3 Lsig) as H.
   change (bytes_to_bool [xff]) with true in H. cbv iota in H.
   apply H. intro E. discriminate E.
 Qed.
@@ -717,15 +718,16 @@ Theorem ptlc_refund_exact f rcv c refund sig fl vals ts thr :
     (ts_verdict cfg (be_to_Z c) ts thr = true /\ bad_arity refund sig (init_cache cfg vals)).
 Proof.
   intros L1 L2 L3 Fc Lsig Hts Hthr.
-  unfold run_auth_scripts. rewrite ptlc_refund_witness_bytes.
+  unfold run_auth_scripts. rewrite ptlc_refund_witness_bytes, ptlc_lock_bytes.
   rewrite (flag_witness_runs (S (S f)) sig x00 x00 vals eq_refl Lsig).
   rewrite auth_rest_one.
-  destruct (lock_start (push1_bytes sig ++ [x00]) (ptlc_lock rcv c refund fl) vals [[x00]; sig])
+  destruct (lock_start (push1_bytes sig ++ [x00])
+              ([x2c] ++ ifelse_ops (claim_arm rcv) (refund_arm_bytes c refund) ++ [x23; fl]) vals [[x00]; sig])
     as (Hd & Hlt & Hs & Hret & Hmsg & Hts2).
-  rewrite ptlc_lock_bytes in Hd.
+  set (tid := fst (next_start _ 0 _)) in *. set (st2 := snd (next_start _ 0 _)) in *.
   assert (L3' : List.length c <= 255) by lia.
-  pose proof (lock_tail _ _ f _ _ 0 [] [x00] sig rcv c refund fl ts thr (init_cache cfg vals)
-                Hd eq_refl Hlt Hs Hret Hmsg L1 L2 L3' Lsig) as H.
+  pose proof (lock_tail (S (S (S (S (S f))))) tid f tid st2 0 [] [x00] sig rcv c refund fl ts thr
+                (init_cache cfg vals) Hd eq_refl Hlt Hs Hret Hmsg L1 L2 L3' Lsig) as H.
   change (bytes_to_bool [x00]) with false in H. cbv iota in H.
   apply H. intros _. split; [lia|]. split; [exact Fc|]. split; [apply Hts2; exact Hts|exact Hthr].
 Qed.
@@ -750,12 +752,13 @@ Theorem htlc_sha256_exact f digest rcv c refund sig preimage h fl vals ts thr :
      (h <> digest /\ ts_verdict cfg (be_to_Z c) ts thr = true /\ bad_arity refund sig c0)).
 Proof.
   intros L1 L2 L3 Fc Lsig Ld Lh Lp Fp Ho Hts Hthr c0.
-  unfold run_auth_scripts. rewrite htlc_witness_bytes.
+  unfold run_auth_scripts. rewrite htlc_witness_bytes, htlc_sha256_lock_bytes.
   rewrite (htlc_witness_runs _ sig preimage vals Lsig Lp Fp).
   rewrite auth_rest_one.
-  destruct (lock_start (push1_bytes sig ++ push1_bytes preimage) (htlc_sha256_lock digest rcv c refund fl)
+  destruct (lock_start (push1_bytes sig ++ push1_bytes preimage)
+              ((x1e :: push1_bytes digest ++ [x21; x2c]) ++
+               ifelse_ops (claim_arm rcv) (refund_arm_bytes c refund) ++ [x23; fl])
               vals [preimage; sig]) as (Hd & Hlt & Hs & Hret & Hmsg & Hts2).
-  rewrite htlc_sha256_lock_bytes in Hd.
   set (tid := fst (next_start _ 0 _)) in *. set (st2 := snd (next_start _ 0 _)) in *.
   set (ops := ifelse_ops (claim_arm rcv) (refund_arm_bytes c refund)) in *.
   assert (Hd0 : tdata st2 tid = [] ++ x1e :: (push1_bytes digest ++ x21 :: x2c :: ops ++ [x23; fl])).
@@ -766,8 +769,7 @@ Proof.
   cbn [fr_ptr].
   apply (htlc_tail _ _ f tid _ 1 [x1e] h digest sig rcv c refund fl ts thr c0); try assumption;
     try reflexivity; try lia.
-  - exact Hd0.
-  - apply Hts2. exact Hts.
+  all: first [ exact Hd0 | apply Hts2; exact Hts ].
 Qed.
 
 (* 4. HTLC (shake256, digest size n) *)
@@ -791,12 +793,13 @@ Theorem htlc_shake256_exact f n digest rcv c refund sig preimage h fl vals ts th
      (h <> digest /\ ts_verdict cfg (be_to_Z c) ts thr = true /\ bad_arity refund sig c0)).
 Proof.
   intros L1 L2 L3 Fc Lsig Ld Fd Fh Lp Fp Ho Hts Hthr c0.
-  unfold run_auth_scripts. rewrite htlc_witness_bytes.
+  unfold run_auth_scripts. rewrite htlc_witness_bytes, htlc_shake256_lock_bytes.
   rewrite (htlc_witness_runs _ sig preimage vals Lsig Lp Fp).
   rewrite auth_rest_one.
-  destruct (lock_start (push1_bytes sig ++ push1_bytes preimage) (htlc_shake256_lock n digest rcv c refund fl)
+  destruct (lock_start (push1_bytes sig ++ push1_bytes preimage)
+              ((x1f :: n :: push1_bytes digest ++ [x21; x2c]) ++
+               ifelse_ops (claim_arm rcv) (refund_arm_bytes c refund) ++ [x23; fl])
               vals [preimage; sig]) as (Hd & Hlt & Hs & Hret & Hmsg & Hts2).
-  rewrite htlc_shake256_lock_bytes in Hd.
   set (tid := fst (next_start _ 0 _)) in *. set (st2 := snd (next_start _ 0 _)) in *.
   set (ops := ifelse_ops (claim_arm rcv) (refund_arm_bytes c refund)) in *.
   assert (Hd0 : tdata st2 tid = [] ++ x1f :: (n :: push1_bytes digest ++ x21 :: x2c :: ops ++ [x23; fl])).
@@ -809,8 +812,45 @@ Proof.
   cbn [fr_ptr].
   apply (htlc_tail _ _ f tid _ 2 [x1f; n] h digest sig rcv c refund fl ts thr c0); try assumption;
     try reflexivity; try lia.
-  - exact Hd0.
-  - apply Hts2. exact Hts.
+  all: first [ exact Hd0 | apply Hts2; exact Hts ].
 Qed.
 
 End B.
+
+(* ---------- restatements without the auxiliary definitions (used by props/C15.v) ---------- *)
+
+Lemma if_else_exec_explicit orc cfg (run : nat -> state -> outcome unit) tid st ptr (pre b1 b2 tail : bytes) cond s :
+  tdata st tid = pre ++ (Z_to_be 2 (blen b1) ++ b1 ++ Z_to_be 2 (blen b2) ++ b2) ++ tail ->
+  ptr = List.length pre ->
+  (blen b1 < 65536)%Z -> (blen b2 < 65536)%Z ->
+  st_stack st = cond :: s ->
+  interp orc cfg run OP_IF_ELSE {| fr_tid := tid; fr_ptr := ptr |} st =
+    let fr' := {| fr_tid := tid; fr_ptr := ptr + (2 + List.length b1 + 2 + List.length b2) |} in
+    let body := if bytes_to_bool cond then b1 else b2 in
+    let c := nth_tape st tid in
+    let st2 :=
+      {| st_stack := s; st_cache := st_cache st;
+         st_tapes := st_tapes st ++ [{| to_data := body; to_count := to_count c; to_defs := List.length (st_defs st) |}];
+         st_defs := st_defs st ++ [nth_defs st (to_defs c)];
+         st_log := st_log st; st_rand := st_rand st |} in
+    match run (List.length (st_tapes st)) st2 with
+    | Done _ _ st' => interp orc cfg run propagate_return fr' st'
+    | Raised e _ st' => Raised e fr' st'
+    | OutOfFuel => OutOfFuel
+    | Unmodelled w => Unmodelled w
+    end.
+Proof.
+  intros Hd Hp H1 H2 Hs.
+  rewrite (if_else_exec orc cfg run tid st ptr pre b1 b2 tail cond s Hd Hp H1 H2 Hs).
+  cbv zeta. unfold ifelse_ops. rewrite !app_length, !length_len2.
+  replace (ptr + (2 + (List.length b1 + (2 + List.length b2))))
+    with (ptr + (2 + List.length b1 + 2 + List.length b2)) by lia.
+  reflexivity.
+Qed.
+
+Lemma sig_accepts_meaning orc cfg pk sig allowed c :
+  sig_accepts orc cfg pk sig allowed c <->
+  (flags_permitted (sig_flag sig) allowed = true /\
+   exists m x, msg_of (sig_flag sig) c = Some m /\ List.length m <= c_max_item_size cfg /\
+               orc PVerify [pk; m; firstn 64 sig] = OOk [x] /\ bytes_to_bool x = true).
+Proof. reflexivity. Qed.
